@@ -1180,6 +1180,10 @@ func cmCaseTU(c *Ctx, r *Rand, emit bool) (key string, viol []cmViol, nontrivial
 		if c != nil && emit {
 			c.Emit("CC tunew "+ccCSRWire(sp.csr)+" "+dw, "ok "+cmTUFileWire(f))
 		}
+		// O: the single-destination bfrange form obeys ISO 32000-2 9.10.3 (see cc_audit.go)
+		for _, d := range cmTUSpecCheck(f) {
+			bad("bfrange-last-byte-overflow", sp.name+": "+d)
+		}
 		f.Parent = parent
 		keyParts = append(keyParts, dw)
 		if len(f.Ranges) > 0 || parent != nil {
@@ -1815,6 +1819,8 @@ func cmOracleName(key string) string {
 		return "lookup-unmapped"
 	case "setmapping-skip-answered-by-parent-notdef":
 		return "lookup-mapped"
+	case "bfrange-last-byte-overflow":
+		return "tu-lookup"
 	}
 	return key
 }
